@@ -25,8 +25,8 @@ EXECUTION_COUNTERS = ["calls_checked"]   # executions of the oracle inside the c
 RULE = ("case = configuration + request sequence, executed with two garbage fillings; non-trivial if at least one evaluator call was checked; cases with inactive entries, filters, "
         "transforms, memo hits are counted separately in monitor_counters; distinct key = (case index, personality)")
 ASSUMPTIONS = ["garbage written into inactive entries is finite", "with transforms, user-domain quantities are compared to 1e-12 relative"]
-REQUIRED = {"quick": {"moved_gradient_request_sequences": 500, "calls_checked": 6000, "rows_checked": 35000, "values_checked": 60000, "inactive_entries_seen": 5000, "garbage_pairs_compared": 1500, "evaluator_arrays_snapshotted": 10000, "delivered_arrays_checked": 60000, "memo_hits": 300, "with_filters": 400, "with_transforms": 400, "split_gradient_requests": 400, "row_flags_checked": 1500, "__nontrivial__": 1500},
-            "thorough": {"moved_gradient_request_sequences": 10000, "calls_checked": 150000, "rows_checked": 800000, "values_checked": 1500000, "inactive_entries_seen": 120000, "garbage_pairs_compared": 40000, "evaluator_arrays_snapshotted": 250000, "delivered_arrays_checked": 1500000, "memo_hits": 8000, "with_filters": 10000, "with_transforms": 10000, "split_gradient_requests": 10000, "row_flags_checked": 30000, "__nontrivial__": 36000}}
+REQUIRED = {"quick": {"moved_gradient_request_sequences": 500, "calls_checked": 6000, "rows_checked": 35000, "values_checked": 60000, "inactive_entries_seen": 5000, "garbage_pairs_compared": 1500, "cases_with_huge_finite_garbage": 900, "evaluator_arrays_snapshotted": 10000, "delivered_arrays_checked": 60000, "memo_hits": 300, "with_filters": 400, "with_transforms": 400, "split_gradient_requests": 400, "row_flags_checked": 1500, "__nontrivial__": 1500},
+            "thorough": {"moved_gradient_request_sequences": 10000, "calls_checked": 150000, "rows_checked": 800000, "values_checked": 1500000, "inactive_entries_seen": 120000, "garbage_pairs_compared": 40000, "cases_with_huge_finite_garbage": 20000, "evaluator_arrays_snapshotted": 250000, "delivered_arrays_checked": 1500000, "memo_hits": 8000, "with_filters": 10000, "with_transforms": 10000, "split_gradient_requests": 10000, "row_flags_checked": 30000, "__nontrivial__": 36000}}
 N = {"quick": 3000, "thorough": 60000}
 PERSONALITIES = ["fresh", "memo", "buffer", "buffer_ro"]   # buffer_ro: hands out read-only views of the buffers it reuses
 
@@ -302,7 +302,11 @@ def run_case(case, obs):
         case["seq"] = seq
     seed_seq = int(rng.integers(0, 2**31))
     runs = []
-    for garbage in (777.0, -31337.5):
+    # the second filling: of ordinary size, or large enough to dwarf (1e30) or to overflow when squared (1e200, 3e299) - still finite
+    g2 = float(rng.choice([-31337.5, -31337.5, 1e30, -1e200, 3e299]))
+    if abs(g2) > 1e6:
+        obs.count("cases_with_huge_finite_garbage")
+    for garbage in (777.0, g2):
         runs.append(_execute(spec, tspec, seq, pers, garbage, np.random.default_rng(seed_seq)))
     cfg, transforms, ev, delivered = runs[0]
     R, P = spec["R"], spec["P"]
